@@ -23,6 +23,8 @@ type EvalCtx struct {
 	errs   *[]string
 	fnKey  string
 	noVars bool
+	nerr   *int
+	lastErr *string
 }
 
 func (c *EvalCtx) with(name string, v Value) *EvalCtx {
@@ -37,8 +39,34 @@ func (c *EvalCtx) with(name string, v Value) *EvalCtx {
 
 func (c *EvalCtx) fail(format string, a ...interface{}) Value {
 	msg := fmt.Sprintf(format, a...)
+	if c.nerr != nil {
+		// soft mode: the caller turns the clause into a failed obligation
+		*c.nerr++
+		*c.lastErr = msg
+		return TFalse
+	}
 	c.e.toolError("contract evaluation (%s): %s", c.fnKey, msg)
 	return TFalse
+}
+
+// soft makes evaluation errors local to the clause being evaluated.
+func (c *EvalCtx) soft() *EvalCtx {
+	n := *c
+	n.nerr = new(int)
+	n.lastErr = new(string)
+	return &n
+}
+
+// goal evaluates a clause as an obligation: a clause that cannot be evaluated on
+// the current code (e.g. it names a variable that no longer exists) is a failed
+// obligation, never a silent pass.
+func (c *EvalCtx) goal(x Expr) (*Term, string) {
+	s := c.soft()
+	t := s.boolean(x)
+	if *s.nerr > 0 {
+		return TFalse, " [clause cannot be evaluated on this code: " + *s.lastErr + "]"
+	}
+	return t, ""
 }
 
 func (c *EvalCtx) term(x Expr) *Term {
@@ -856,8 +884,15 @@ func (e *Engine) constsOfType(t types.Type) []int64 {
 	return out
 }
 
+func (e *Engine) ghostSort(name string) string {
+	if s, ok := e.ghostSorts[name]; ok {
+		return s
+	}
+	return SInt
+}
+
 func (e *Engine) ghostInit(st *State, name string) Value {
-	v := e.freshVar("ghost_"+name, SInt)
+	v := e.freshVar("ghost_"+name, e.ghostSort(name))
 	// ghost variables are created on first use in the *initial* snapshot too:
 	// share through initGhost so that old(ghost.x) and ghost.x agree until modified
 	if g, ok := e.initGhost[name]; ok {
@@ -972,7 +1007,7 @@ func (c *EvalCtx) havoc(l Loc, hint string) {
 	case l.Ptr != nil:
 		c.e.storePtr(c.st, *l.Ptr, c.e.fresh(c.st, l.Ptr.Elem, hint))
 	case l.Ghost != "":
-		c.st.ghost[l.Ghost] = c.e.freshVar("ghost_"+l.Ghost, SInt)
+		c.st.ghost[l.Ghost] = c.e.freshVar("ghost_"+l.Ghost, c.e.ghostSort(l.Ghost))
 	case l.All != nil:
 		if l.All.Obj != nil {
 			old := c.e.heapGet(c.st, l.All.Obj).(ArrV)
@@ -1001,6 +1036,14 @@ func spliceFn(srt string) string {
 // assume adds a clause to the state; equalities whose left side is a location
 // holding a reference-shaped value (slice header, pointer) are strong updates.
 func (c *EvalCtx) assume(x Expr) {
+	if c.nerr == nil {
+		s := c.soft()
+		s.assume(x)
+		if *s.nerr > 0 {
+			c.e.noteAssumption("clause not assumed because it cannot be evaluated here: " + exprStr(x) + " (" + *s.lastErr + ")")
+		}
+		return
+	}
 	switch e := x.(type) {
 	case *ECall:
 		if e.Fun == "fresh" && len(e.Args) == 1 {
@@ -1048,5 +1091,9 @@ func (c *EvalCtx) assume(x Expr) {
 			}
 		}
 	}
-	c.st.assume(c.boolean(x))
+	before := *c.nerr
+	t := c.boolean(x)
+	if *c.nerr == before {
+		c.st.assume(t)
+	}
 }
